@@ -25,7 +25,7 @@ for p in props:
         d = json.load(open(os.path.join(ROOT, 'harness', pid, 'descriptor.json')))
         c = {
             "property_id": pid,
-            "quick_cmd": "/verif/bin/symgo check %s --tier quick" % pid,
+            "quick_cmd": "/verif/check.sh %s quick" % pid,
             "evidence_file": "/verif/evidence/%s.json" % pid,
             "replay_cmd_template": "/verif/bin/symgo replay {path}",
             "engine": "symgo",
@@ -34,7 +34,7 @@ for p in props:
             "technique": d.get('technique') or TECH,
         }
         if any('thorough' in (e.get('tiers') or ['quick', 'thorough']) for e in d['entries']):
-            c["thorough_cmd"] = "/verif/bin/symgo check %s --tier thorough" % pid
+            c["thorough_cmd"] = "/verif/check.sh %s thorough" % pid
         checks.append(c)
     else:
         NA[pid] = NA.get(pid) or REASON_PENDING
